@@ -30,7 +30,7 @@ type receiverStream struct {
 	started              bool
 	seqnumCycles         uint16
 	lastSeqnum           uint16
-	lastReportSeqnum     uint16
+	lastReportSeqnum     uint32 // extended (cycles<<16 | seqnum), so that an interval can span more than 2^16 packets
 	lastRTPTimeRTP       uint32
 	lastRTPTimeTime      time.Time
 	jitter               float64
@@ -63,24 +63,27 @@ func (stream *receiverStream) processRTP(now time.Time, pktHeader *rtp.Header) {
 		stream.started = true
 		stream.setReceived(pktHeader.SequenceNumber)
 		stream.lastSeqnum = pktHeader.SequenceNumber
-		stream.lastReportSeqnum = pktHeader.SequenceNumber - 1
+		stream.lastReportSeqnum = uint32(pktHeader.SequenceNumber) - 1
 		stream.lastRTPTimeRTP = pktHeader.Timestamp
 		stream.lastRTPTimeTime = now
 	} else { // following frames
 		diff := pktHeader.SequenceNumber - stream.lastSeqnum
 		if diff > 0 && diff < (1<<15) {
+			extSeqnum := stream.extendedSeqnum()
+
 			// wrap around
 			if pktHeader.SequenceNumber < stream.lastSeqnum {
 				stream.seqnumCycles++
 			}
 
 			// set missing packets as missing
-			historySize := stream.size * packetsPerHistoryEntry
+			historySize := uint32(stream.size) * packetsPerHistoryEntry
 			for i := stream.lastSeqnum + 1; ; i++ {
+				extSeqnum++
 				// The entry about to be reused still describes packet i-historySize. If that packet
 				// belongs to the current report interval and was never received, count it as lost now:
 				// generateReport can no longer find it in the history.
-				if i-stream.lastReportSeqnum > historySize && !stream.getReceived(i) {
+				if extSeqnum-stream.lastReportSeqnum > historySize && !stream.getReceived(i) {
 					stream.lostBeyondHistory++
 				}
 				if i == pktHeader.SequenceNumber {
@@ -105,6 +108,10 @@ func (stream *receiverStream) processRTP(now time.Time, pktHeader *rtp.Header) {
 		stream.lastRTPTimeRTP = pktHeader.Timestamp
 		stream.lastRTPTimeTime = now
 	}
+}
+
+func (stream *receiverStream) extendedSeqnum() uint32 {
+	return uint32(stream.seqnumCycles)<<16 | uint32(stream.lastSeqnum)
 }
 
 func (stream *receiverStream) setReceived(seq uint16) {
@@ -135,16 +142,16 @@ func (stream *receiverStream) generateReport(now time.Time) *rtcp.ReceiverReport
 	stream.m.Lock()
 	defer stream.m.Unlock()
 
-	totalSinceReport := stream.lastSeqnum - stream.lastReportSeqnum
+	totalSinceReport := stream.extendedSeqnum() - stream.lastReportSeqnum
 	totalLostSinceReport := func() uint32 {
-		if stream.lastSeqnum == stream.lastReportSeqnum {
+		if totalSinceReport == 0 {
 			return 0
 		}
 
 		// packets older than the history have been counted when their entry was reused
 		ret := stream.lostBeyondHistory
-		first := stream.lastReportSeqnum + 1
-		if historySize := stream.size * packetsPerHistoryEntry; totalSinceReport > historySize {
+		first := uint16(stream.lastReportSeqnum + 1) //nolint:gosec // G115
+		if historySize := stream.size * packetsPerHistoryEntry; totalSinceReport > uint32(historySize) {
 			first = stream.lastSeqnum - historySize + 1
 		}
 		for i := first; i != stream.lastSeqnum; i++ {
@@ -171,7 +178,7 @@ func (stream *receiverStream) generateReport(now time.Time) *rtcp.ReceiverReport
 		Reports: []rtcp.ReceptionReport{
 			{
 				SSRC:               stream.ssrc,
-				LastSequenceNumber: uint32(stream.seqnumCycles)<<16 | uint32(stream.lastSeqnum),
+				LastSequenceNumber: stream.extendedSeqnum(),
 				LastSenderReport:   stream.lastSenderReport,
 				FractionLost:       uint8(float64(totalLostSinceReport*256) / float64(totalSinceReport)),
 				TotalLost:          stream.totalLost,
@@ -187,7 +194,7 @@ func (stream *receiverStream) generateReport(now time.Time) *rtcp.ReceiverReport
 		},
 	}
 
-	stream.lastReportSeqnum = stream.lastSeqnum
+	stream.lastReportSeqnum = stream.extendedSeqnum()
 
 	return receiverReport
 }
